@@ -24,6 +24,7 @@ VERIF = os.path.dirname(os.path.dirname(os.path.abspath(__file__)))
 PY = sys.executable
 CHECK = os.path.join(VERIF, 'check.py')
 RUN_ALARM_S = 60
+THOROUGH_OFFSET = 16 * 10 ** 7
 
 
 def load(prop):
@@ -73,7 +74,7 @@ def run_index(mod, seed, index):
 # ----------------------------------------------------------------------------------------------
 # worker (a subprocess with a fixed PYTHONHASHSEED)
 # ----------------------------------------------------------------------------------------------
-def worker_main(prop, seed, start, stride, count, out_dir, wallcap, log_digests, run_offset=0):
+def worker_main(prop, seed, start, stride, count, out_dir, wallcap, log_digests, run_offset=0, deep=False):
     faulthandler.enable()
     from sim import seams
     seams.install()
@@ -97,6 +98,7 @@ def worker_main(prop, seed, start, stride, count, out_dir, wallcap, log_digests,
         index = run_offset + i
         try:
             st = Streams(mod.PROP, seed, index)
+            st.deep = deep
             trace = mod.generate(st)
             trace['prop'] = mod.PROP
             with open(pending_path, 'w') as f:     # a hang leaves a replayable trace behind
@@ -200,6 +202,10 @@ def batch(prop, tier, seed, runs=None, workers=None, wallcap=None, log_digests=F
             k, n = queue.pop(0)
             args = [prop, '--worker', '--seed', str(seed), '--start', str(k), '--stride', str(nclass), '--count', str(n),
                     '--out', out_dir, '--wallcap', str(cfg['wallcap'])]
+            if tier == 'thorough':
+                # the thorough tier explores other runs than the quick tier (disjoint index range, a multiple of the
+                # number of hash-seed classes) and draws the larger "deep" configurations
+                args += ['--run-offset', str(THOROUGH_OFFSET), '--deep']
             if log_digests:
                 args.append('--log-digests')
             running.append((k, _spawn(args, HASH_SEEDS[k]), time.monotonic()))
